@@ -103,8 +103,8 @@ def geodetic2ecef(lat: float, lon: float, h: float, a: float = EARTH_EQUATOR_RAD
         raise ValueError(f"Latitude must be between -90 and 90 degrees. Got {lat}")
     if abs(lon) > 180.0:
         raise ValueError(f"Longitude must be between -180 and 180 degrees. Got {lon}")
-    lat *= DEG2RAD
-    lon *= DEG2RAD
+    lat = lat*DEG2RAD
+    lon = lon*DEG2RAD
     ecc2 = (a**2 - b**2)/a**2
     N = a/np.sqrt(1 - ecc2 *np.sin(lat)**2)
     X = np.zeros(3)
@@ -479,8 +479,8 @@ def ecef2enuv(x: float, y: float, z: float, x0: float, y0: float, z0: float, lat
     enu : numpy.ndarray
         ENU cartesian coordinates [east, north, up].
     """
-    lat *= DEG2RAD
-    lon *= DEG2RAD
+    lat = lat*DEG2RAD
+    lon = lon*DEG2RAD
     u = x - x0
     v = y - y0
     w = z - z0
@@ -515,8 +515,8 @@ def enu2uvw(east: float, north: float, up: float, lat: float, lon: float, angle_
         UVW cartesian coordinates.
     """
     if angle_unit == 'deg':
-        lat *= DEG2RAD
-        lon *= DEG2RAD
+        lat = lat*DEG2RAD
+        lon = lon*DEG2RAD
     t = np.cos(lat) * up - np.sin(lat) * north
     w = np.sin(lat) * up + np.cos(lat) * north
     u = np.cos(lon) * t - np.sin(lon) * east
@@ -627,8 +627,8 @@ def aer2enu(az: float, elev: float, slant_range: float, deg: bool = True) -> np.
         ENU cartesian coordinates [east, north, up].
     """
     if deg:
-        az *= DEG2RAD
-        elev *= DEG2RAD
+        az = az*DEG2RAD
+        elev = elev*DEG2RAD
     r = slant_range*np.cos(elev)
     return np.array([r*np.sin(az), r*np.cos(az), slant_range*np.sin(elev)])
 
@@ -700,7 +700,7 @@ def enu2dca(east: float, north: float, up: float, angle: float, deg: bool = True
         DCA Cartesian coordinates [d, c, a].
     """
     if deg:
-        angle *= DEG2RAD
+        angle = angle*DEG2RAD
     d = np.sin(angle)*east + np.cos(angle)*north
     c = -np.cos(angle)*east + np.sin(angle)*north
     return np.array([d, c, up])
@@ -742,7 +742,7 @@ def dca2enu(down: float, cross: float, above: float, angle: float, deg: bool = T
         ENU Cartesian coordinates [east, north, up].
     """
     if deg:
-        angle *= DEG2RAD
+        angle = angle*DEG2RAD
     east = np.sin(angle)*down - np.cos(angle)*cross
     north = np.cos(angle)*down + np.sin(angle)*cross
     return np.array([east, north, above])
